@@ -30,6 +30,10 @@ func Parse(source string) (expr Expression, err error) {
 	if err != nil {
 		return nil, err
 	}
+	if p.val == nil {
+		// the source spelled a statement (one of the lexer's statement-selector tokens), not an expression
+		return nil, SyntaxError(fmt.Errorf("syntax error in %q", source).Error())
+	}
 	return &expression{p.val}, nil
 }
 
